@@ -178,6 +178,18 @@ def prim_input_site(data, site):
     return site[2] == 'source' and faults.local(el) == 'input' and el in parent and faults.local(parent[el]) in PRIMITIVES
 
 
+def required_ref_attr(data, site):
+    """url / target of an instance element, or source / semantic / offset of an <input> of a primitive or of <vertices>"""
+    root = ET.fromstring(data)
+    parent = dict((c, p) for p in root.iter() for c in p)
+    el = list(root.iter())[site[1]]
+    name = faults.local(el)
+    if name.startswith('instance_') and site[2] in ('url', 'target'):
+        return True
+    return name == 'input' and el in parent and faults.local(parent[el]) in PRIMITIVES + ('vertices',) and site[2] in ('source', 'semantic', 'offset') \
+        and not (site[2] == 'offset' and faults.local(parent[el]) == 'vertices')
+
+
 def check_fault(data, site, base):
     """base = (doc, closure, by_key snapshot, ids) of the undamaged load. Returns (result or None, info)"""
     kind = site[0]
@@ -193,6 +205,9 @@ def check_fault(data, site, base):
         # "needed data isn't there" (DaeIncompleteError), the definition of something referred to is gone (DaeBrokenRefError) or the only
         # supported variant is gone (DaeUnsupportedError) - but nothing is "corrupted": the documented meaning of DaeMalformedError
         allowed = allowed - {'DaeMalformedError'}
+    if kind == 'dropattr' and required_ref_attr(data, site):
+        # a required attribute that is gone is "needed data that isn't there": the documented meaning of DaeIncompleteError
+        allowed = {'DaeIncompleteError'}
     if kind == 'nohash' and prim_input_site(data, site):
         # the input table of a primitive tells a malformed reference ("Incorrect source id") from a dangling one ("not found"):
         # Pyc.Validate.resolve, C09.bad_reference_is_malformed; the two fault kinds of the property have two documented kinds here
